@@ -68,7 +68,10 @@ def check(case):
     r.label(*input_labels(samples))
     r.label("fw:" + opts["fw"])
     r.nontrivial = "key:non-identifier" in kl
-    ok, b = owned(r, "generate", pl.build, samples, opts)
+    extra = [tuple(x) for x in case.get("extra_models") or []]
+    if extra:
+        r.label("several-root-models")
+    ok, b = owned(r, "generate", pl.build, samples, opts, "Root", extra)
     if not ok:
         return r
     src, nested = codeview.render_owned(r, b, opts)
@@ -102,7 +105,25 @@ def check(case):
 
 @st.composite
 def cases(draw, tier="quick"):
-    return draw(c01.cases(tier, pools=POOLS, root_names=gen.ROOT_NAMES))
+    c = draw(c01.cases(tier, pools=POOLS, root_names=gen.ROOT_NAMES))
+    if draw(st.integers(0, 5)) == 0:
+        # further root models (-m A a.json -m B b.json) over the same keys: models of different roots get merged, a nested
+        # class of one root may refer to another root
+        from ..findings import all_keys
+        universe = sorted({k for s in c["samples"] for k in all_keys(s)}) or ["a"]
+        used = {c["opts"].get("root", "Root")}
+        extra = []
+        for _ in range(draw(st.integers(1, 2))):
+            nm = draw(st.sampled_from([n for n in gen.ROOT_NAMES + ["Other", "Beta"] if n not in used]))
+            if gen.class_name_collision(universe, nm) or (not c["opts"]["unicode"] and gen.nfkc_unstable(nm)):
+                continue
+            if any(gen.root_forms(nm)[1] & gen.root_forms(u)[1] for u in used):
+                continue
+            used.add(nm)
+            extra.append([nm, draw(st.one_of(st.just(c["samples"][:1]), gen.sample_lists(universe, max_samples=3, max_leaves=6)))])
+        if extra:
+            c["extra_models"] = extra
+    return c
 
 
 def sweep_cases(tier):
@@ -130,6 +151,15 @@ def sweep_cases(tier):
 
 
 def valid(case):
+    extra = case.get("extra_models") or []
+    try:
+        names = [case["opts"].get("root", "Root")] + [x[0] for x in extra]
+        if len(set(names)) != len(names) or not all(isinstance(n, str) and n and n[0].isalnum() for n in names):
+            return False
+        if not all(c01.valid({"samples": x[1], "opts": dict(case["opts"], root=x[0])}) for x in extra):
+            return False
+    except Exception:  # noqa: BLE001
+        return False
     return c01.valid(case)
 
 
